@@ -245,9 +245,13 @@ class ComputeGraph(MultiDiGraph):
         elif backend == 'matlab':
             from pyrates.backend.matlab import MatlabBackend
             backend = MatlabBackend
-        else:
+        elif backend in ('default', 'numpy', None):
             from pyrates.backend.base import BaseBackend
             backend = BaseBackend
+        else:
+            from pyrates.backend import PyRatesException
+            raise PyRatesException(f"Unknown backend `{backend}`. Available backends: 'default' ('numpy'), 'torch', 'jax', "
+                                   f"'fortran', 'julia', 'matlab'.")
 
         # backend-related attributes
         self.backend = backend(**kwargs)
